@@ -104,7 +104,24 @@ struct Case {
     /// 3 = colour 8..=15 with the BOLD flag set as well
     #[serde(default)]
     rep: u8,
+    /// words laid over the picture, each in one attribute: (row, column, dictionary index, fg, bg). The dictionary holds control-code
+    /// look-alikes of BBS software and file formats (plain text in every format that does not use their lead-in) and UTF-8 encodings
+    /// of CP437 glyphs (two or three CP437 cells that read as one UTF-8 character)
+    #[serde(default)]
+    words: Vec<(u8, u8, u8, u8, u8)>,
+    /// every other character >= 0x80 is replaced by a letter, so that the written file is valid UTF-8 as a whole when the words are UTF-8 encodings
+    #[serde(default)]
+    utf8ish: bool,
 }
+
+const WORDS: [&[u8]; 48] = [
+    b"@CLS@", b"@CLEAR@", b"@PAUSE@", b"@MORE@", b"@X0F", b"@X1E@", b"@POS:10@", b"@BEEP@", b"@USER@", b"@HANGUP@", b"@0F@", b"@-codes@",
+    b"|15", b"|07|16", b"|CL", b"|PA", b"|CR", b"|[X10", b"`1F", b"~1", b"%%F", b"$a", b"{CLS}", b"[0;1m", b"[2J", b"ESC[2J", b"\\x1b[0m",
+    b"SAUCE00", b"COMNT", b"\x03\x33", b"^C3", b"^A", b"&&", b"\\n", b"<b>", b"&amp;",
+    // UTF-8 encodings of characters that have a CP437 glyph
+    b"caf\xC3\xA9", b"\xC3\xBC\xC3\xA4\xC3\xB6", b"Gr\xC3\xB6\xC3\x9Fe", b"\xE2\x96\x88\xE2\x96\x88", b"\xE2\x96\x91\xE2\x96\x92\xE2\x96\x93", b"\xE2\x94\x82 \xE2\x94\x80",
+    b"\xE2\x95\x94\xE2\x95\x90\xE2\x95\x97", b"\xC2\xA3 \xC2\xA5", b"\xCF\x80 \xCE\xA3", b"20\xC2\xB0", b"x\xC2\xB2", b"\xC2\xBD \xC2\xBC",
+];
 
 /// the grid actually saved: every row holds its significant cells (no trailing blank on black)
 #[derive(Clone, Debug, PartialEq)]
@@ -194,6 +211,35 @@ fn normalize(c: &Case) -> Norm {
     if rows.is_empty() {
         rows.push(Vec::new());
         pad.push(false);
+    }
+    if c.utf8ish {
+        for r in rows.iter_mut() {
+            for cell in r.iter_mut() {
+                if cell.0 >= 0x80 {
+                    cell.0 = b'a' + (cell.0 & 15);
+                }
+            }
+        }
+    }
+    for (ry, cx, di, fg, bg) in &c.words {
+        let y = (*ry as usize * rows.len()) >> 8;
+        let word = WORDS[(*di as usize * WORDS.len()) >> 8];
+        let x0 = ((*cx as usize) * (w.saturating_sub(word.len()) + 1)) >> 8;
+        let line = &mut rows[y];
+        while line.len() < x0 {
+            line.push(Cell(b' ', 7, 0));
+        }
+        for (i, b) in word.iter().enumerate() {
+            if x0 + i >= w {
+                break;
+            }
+            let cell = legal_cell(fmt, Cell(*b, *fg, *bg));
+            if x0 + i < line.len() {
+                line[x0 + i] = cell;
+            } else {
+                line.push(cell);
+            }
+        }
     }
     if c.bom && fmt == ATA {
         // ATASCII: the bytes EF BB BF are the inverse-video characters o ; ? - a single row that starts with them and
@@ -899,13 +945,27 @@ fn cases(fmt: usize, steer_bom: bool) -> BoxedStrategy<Case> {
     let alt = if fmt == REN { prop_oneof![3 => Just(0u8), 1 => 0u8..9].boxed() } else { Just(0u8).boxed() };
     let shape = prop_oneof![3 => Just(0u8), 2 => 1u8..icyv::shape::CODES];
     let rep = prop_oneof![2 => Just(0u8), 1 => 1u8..4];
-    (0u8..3, alt, bom, rows(w, max_height(fmt)), shape, rep).prop_map(move |(prep, alt, bom, rows, shape, rep)| Case { fmt: fmt as u8, prep, alt, bom, rows, shape, rep }).boxed()
+    let words = prop_oneof![3 => Just(Vec::new()), 1 => proptest::collection::vec((any::<u8>(), any::<u8>(), any::<u8>(), fg_col(), bg_col()), 1..=4)];
+    (0u8..3, alt, bom, rows(w, max_height(fmt)), shape, rep, words, proptest::bool::weighted(0.15))
+        .prop_map(move |(prep, alt, bom, rows, shape, rep, words, utf8ish)| Case { fmt: fmt as u8, prep, alt, bom, rows, shape, rep, utf8ish: utf8ish && !words.is_empty(), words })
+        .boxed()
 }
 
 fn minimize(c: &Case) -> Vec<Case> {
     let mut out = Vec::new();
     if c.prep != 0 {
         out.push(Case { prep: 0, ..c.clone() });
+    }
+    if !c.words.is_empty() {
+        out.push(Case { words: Vec::new(), utf8ish: false, ..c.clone() });
+        for i in 0..c.words.len() {
+            let mut w = c.words.clone();
+            w.remove(i);
+            out.push(Case { words: w, ..c.clone() });
+        }
+    }
+    if c.utf8ish {
+        out.push(Case { utf8ish: false, ..c.clone() });
     }
     if c.rep != 0 {
         out.push(Case { rep: 0, ..c.clone() });
@@ -978,7 +1038,7 @@ fn main() {
          height 1..=40, rows = run-structured cell lists (runs of 1..=80 equal cells, optional fill up to the right margin, then cut to a length \
          0..=width with extra weight on width, width-1, width-2, 1, 0), last row never empty (a 'z' is stored when it would be); cells after the end of a row are either unset or explicit blanks on black; \
          characters 0x20..=0x7E, 0x80..=0xFE and the C0 codes 0x01..=0x1F that the format's reader prints as glyphs, minus the format's lead-ins (Avatar, PCBoard, Ctrl-A, Renegade: without BEL LF FF CR ESC and ^V ^Y ^L / '@' / ^A / '|'; ASCII: without BEL BS LF FF CR; \
-         ATASCII: 0x01..=0x1A and 0x20..=0x7C, i.e. without ESC, the cursor codes 0x1C..0x1F and 0x7D..0x7F), illegal characters replaced by letters by construction; attributes foreground 0..=15 x background 0..=7 per run, bright foregrounds stored as colour 8..=15, as colour 0..=7 + BOLD flag (as the ANSI parser stores them), alternating, or 8..=15 + BOLD (1/3 of the cases) \
+         ATASCII: 0x01..=0x1A and 0x20..=0x7C, i.e. without ESC, the cursor codes 0x1C..0x1F and 0x7D..0x7F), illegal characters replaced by letters by construction; attributes foreground 0..=15 x background 0..=7 per run, bright foregrounds stored as colour 8..=15, as colour 0..=7 + BOLD flag (as the ANSI parser stores them), alternating, or 8..=15 + BOLD (1/3 of the cases); a quarter of the buffers carry 1..=4 words of one attribute from a dictionary of 48 control-code look-alikes of BBS software / file formats and UTF-8 encodings of CP437 glyphs (15% of those with every other high character replaced, so the whole file is valid UTF-8) \
          (ASCII: none; ATASCII: normal / inverse); screen preparation None / ClearScreen / Home uniformly; SaveOptions::new() with lossles_output=true; a 1% share of Ctrl-A / Renegade / ASCII buffers starts with the CP437 characters EF BB BF (not generated while the BOM finding is open), and 1% of the ATASCII buffers are a single row starting with inverse 'o;?' (the same bytes) without other inverse cells. \
          Non-trivial: at least one full-width row or at least 3 attribute changes inside one row; distinct by hash of the case. Failure key = format | first violated clause (char, bg, fg, size, save_err, load_err) of the reduced case | \
          input features the reduced case needs: the features bold_flag_storage, storage_shape, prep_cls/prep_home, utf8_bom_prefix, multirow (no single row and no two joined neighbouring rows fail), explicit_trailing_blanks, full_width_row, empty_row, c0_glyph, high_char, blank_cell, code_like_char (hex digits, X), \
